@@ -134,6 +134,30 @@ def run_config(prog, cfg):
                 r.bad(f, key, "assuming the inner decoder returned %s, the return at line %s is reached without freeing the partially decoded "
                               "inner value: it leaks, or is decoded over on the next attempt" % (v, re.get("line")), de["line"],
                       witness={"path": guards.path_lines(f, list(path))})
+    # (6) the only descriptor whose `specifics` may be read as CHOICE specifics is the open type's own (elm->type / td):
+    # the descriptor selected from the object set is an arbitrary type (INTEGER and BOOLEAN have no specifics at all)
+    for name in present:
+        f = prog.func(name)
+        n = 0
+        for b, i, e in f.events():
+            tree = typ = None
+            if e["k"] == "decl" and "init" in e:
+                tree, typ = e["init"]["tree"], e.get("type", "")
+            elif e["k"] == "assign" and "rhs" in e:
+                tree, typ = e["rhs"]["tree"], e.get("base_type", "")
+            if tree is None or "asn_CHOICE_specifics" not in typ:
+                continue
+            src = strip_casts(tree)
+            if not (isinstance(src, list) and src and src[0] == "member" and src[2] == "specifics"):
+                continue
+            n += 1
+            key = "choice-specifics-of:%s" % tree_text(src[1])
+            if any(nd[0] == "var" and nd[1].split("@")[0] == "selected" for nd in walk(src)):
+                r.bad(f, key, "`%s` is read as asn_CHOICE_specifics_t, but the selected descriptor is whatever type the object set pairs with "
+                              "the identifier: for INTEGER or BOOLEAN specifics is NULL and ->struct_size crashes; the holder to be cleared "
+                              "is the open type's own (elm->type)" % tree_text(src), e["line"])
+            else:
+                r.ok(f, key, "CHOICE specifics taken from the open type's own descriptor", e["line"])
     for i in r.insts:
         i.config = cfg
     return [r]
